@@ -159,21 +159,33 @@ func (f File) recordMinSizes(gs GenerateSettings) map[string]int {
 	return out
 }
 
+// usedTypes reports the types the records generated for this file refer to.
+// Namespaced records are imported from another package and not generated
+// here, so what they use is that package's business.
 func (f File) usedTypes() map[string]bool {
 	out := make(map[string]bool)
 	for _, st := range f.Structs {
+		if st.Namespace != "" {
+			continue
+		}
 		stOut := st.usedTypes()
 		for k, v := range stOut {
 			out[k] = v
 		}
 	}
 	for _, msg := range f.Messages {
+		if msg.Namespace != "" {
+			continue
+		}
 		msgOut := msg.usedTypes()
 		for k, v := range msgOut {
 			out[k] = v
 		}
 	}
 	for _, union := range f.Unions {
+		if union.Namespace != "" {
+			continue
+		}
 		unionOut := union.usedTypes()
 		for k, v := range unionOut {
 			out[k] = v
